@@ -393,6 +393,8 @@ pub struct ExtraResult {
     pub note: String,
     pub exhaustive: bool,
     pub failure: Option<(Value, String)>,
+    /// the sub-check whose case format (and replay function) the failure uses
+    pub replay_subcheck: &'static str,
 }
 
 /// Directory for evidence and replay files; `VERIF_SCRATCH=<dir>` redirects
@@ -576,7 +578,7 @@ pub fn run_property(p: Arc<PropertyDef>, tier: Tier, seed: u64) -> i32 {
         exhaustive = r.exhaustive;
         extra_note = r.note;
         if let Some((case, msg)) = r.failure {
-            let path = write_replay(p.id, "extra", &case, &msg);
+            let path = write_replay(p.id, if r.replay_subcheck.is_empty() { "extra" } else { r.replay_subcheck }, &case, &msg);
             println!("VIOLATION property={} replay={}", p.id, path);
             println!("  message={}", msg);
             violations.push((path, msg));
